@@ -73,6 +73,8 @@ GRV_CMD(utftext) {
                 size_t want = std::min(nChars, exp.size());
                 const char *prop = (allwf && got.size() != want) ? "C12" : (allwf ? "C05" : "C11");
                 report_fail(prop, "char-infos do not match the ingestion contract (got " + std::to_string(got.size()) + " char-infos)", w.done());
+                // C05's first sentence covers ill-formed text as well ("U+FFFD for ill-formed sequences")
+                if (!allwf) report_fail("C05", "char-infos of an ill-formed text do not match the ingestion contract (got " + std::to_string(got.size()) + " char-infos)", w.done());
             }
             if (p.nslots > 64 * std::max<size_t>(p.chars.size(), 1) ) report_fail("C02", "more than 64 slots per character", line);
             if (rec && fi == 0 && (g_cases % 7 == 0)) {
